@@ -499,6 +499,34 @@ def concrete_value(expr, val):
                 return False
             left = right
         return True
+    if isinstance(expr, ast.BinOp) and isinstance(expr.op, ast.Add):
+        a, b = concrete_value(expr.left, val), concrete_value(expr.right, val)
+        if isinstance(a, str) and isinstance(b, str) or (isinstance(a, (int, float)) and isinstance(b, (int, float)) and not isinstance(a, bool) and not isinstance(b, bool)):
+            return a + b
+        raise Undecided(k)
+    if isinstance(expr, ast.Subscript):
+        v = concrete_value(expr.value, val)
+        if isinstance(v, (str, tuple)):
+            sl = expr.slice
+            try:
+                if isinstance(sl, ast.Slice):
+                    lo = None if sl.lower is None else concrete_value(sl.lower, val)
+                    hi = None if sl.upper is None else concrete_value(sl.upper, val)
+                    if sl.step is None and all(x is None or (isinstance(x, int) and not isinstance(x, bool)) for x in (lo, hi)):
+                        return v[lo:hi]
+                else:
+                    i = concrete_value(sl, val)
+                    if isinstance(i, int) and not isinstance(i, bool):
+                        return v[i]
+            except IndexError:
+                raise Undecided(k + " (the subscript raises)")
+        raise Undecided(k)
+    if isinstance(expr, ast.Call) and isinstance(expr.func, ast.Attribute) and len(expr.args) == 1 and not expr.keywords \
+            and expr.func.attr in ("startswith", "endswith"):
+        v, a = concrete_value(expr.func.value, val), concrete_value(expr.args[0], val)
+        if isinstance(v, str) and isinstance(a, str):
+            return getattr(v, expr.func.attr)(a)
+        raise Undecided(k)
     if isinstance(expr, ast.Call) and isinstance(expr.func, ast.Attribute) and not expr.args and not expr.keywords \
             and expr.func.attr in ("strip", "lstrip", "rstrip", "lower", "upper"):
         v = concrete_value(expr.func.value, val)
